@@ -21,6 +21,8 @@ pub fn f_eval<T: Sc>(fam: Family, x: T, p: &[T]) -> T {
         Family::DampSin => Float::exp(-p[0] * x) * Float::sin(p[1] * x),
         Family::Rational => one / (one + p[0] * x),
         Family::PhaseCos => Float::exp(-p[0] * x) * Float::cos(p[1] * x + p[2]),
+        Family::Cubic4 => p[0] + p[1] * x + p[2] * x * x + p[3] * x * x * x,
+        Family::ExpQuad5 => Float::exp(-(p[0] + p[1] * x)) * (p[2] + p[3] * x + p[4] * x * x),
         Family::Const => one,
         Family::Linear => x,
     }
@@ -52,6 +54,17 @@ pub fn f_deriv<T: Sc>(fam: Family, x: T, p: &[T], l: usize) -> T {
         (Family::PhaseCos, 0) => -x * Float::exp(-p[0] * x) * Float::cos(p[1] * x + p[2]),
         (Family::PhaseCos, 1) => -x * Float::exp(-p[0] * x) * Float::sin(p[1] * x + p[2]),
         (Family::PhaseCos, 2) => -Float::exp(-p[0] * x) * Float::sin(p[1] * x + p[2]),
+        (Family::Cubic4, 0) => one,
+        (Family::Cubic4, 1) => x,
+        (Family::Cubic4, 2) => x * x,
+        (Family::Cubic4, 3) => x * x * x,
+        (Family::ExpQuad5, 0) => -Float::exp(-(p[0] + p[1] * x)) * (p[2] + p[3] * x + p[4] * x * x),
+        (Family::ExpQuad5, 1) => {
+            -x * Float::exp(-(p[0] + p[1] * x)) * (p[2] + p[3] * x + p[4] * x * x)
+        }
+        (Family::ExpQuad5, 2) => Float::exp(-(p[0] + p[1] * x)),
+        (Family::ExpQuad5, 3) => x * Float::exp(-(p[0] + p[1] * x)),
+        (Family::ExpQuad5, 4) => x * x * Float::exp(-(p[0] + p[1] * x)),
         _ => T::of(0.0),
     }
 }
